@@ -38,6 +38,8 @@ def main():
     finally:
         subprocess.run(['git', '-C', '/repo', 'checkout', '--', '.'])
         # replays written while the change was applied are not findings of the unchanged tree
+        # ... nor is the evidence they wrote: put back the committed evidence of the unchanged tree
+        subprocess.run(['git', '-C', VERIF, 'checkout', '--'] + ['evidence/%s.json' % p for p in props], capture_output=True)
         fd = os.path.join(VERIF, 'replays', 'found')
         if os.path.isdir(fd):
             for f in os.listdir(fd):
